@@ -162,7 +162,14 @@ func typeSwitchArm(c *Ctx, fn *ast.FuncDecl, probe string) ([]string, error) {
 
 // caseBody returns the body of the arm of the outermost type switch in fn whose list is exactly [typ].
 func caseBody(c *Ctx, fn *ast.FuncDecl, typ string) (*ast.CaseClause, error) {
+	cc, _, err := caseBodyB(c, fn, typ)
+	return cc, err
+}
+
+// caseBodyB also returns the name of the variable the type switch binds (`switch x := y.(type)`).
+func caseBodyB(c *Ctx, fn *ast.FuncDecl, typ string) (*ast.CaseClause, string, error) {
 	var res *ast.CaseClause
+	binder := ""
 	ast.Inspect(fn.Body, func(n ast.Node) bool {
 		if res != nil {
 			return false
@@ -170,6 +177,11 @@ func caseBody(c *Ctx, fn *ast.FuncDecl, typ string) (*ast.CaseClause, error) {
 		ts, ok := n.(*ast.TypeSwitchStmt)
 		if !ok {
 			return true
+		}
+		if as, ok := ts.Assign.(*ast.AssignStmt); ok && len(as.Lhs) == 1 {
+			if id, ok := as.Lhs[0].(*ast.Ident); ok {
+				binder = id.Name
+			}
 		}
 		for _, st := range ts.Body.List {
 			cc := st.(*ast.CaseClause)
@@ -182,15 +194,101 @@ func caseBody(c *Ctx, fn *ast.FuncDecl, typ string) (*ast.CaseClause, error) {
 		return false
 	})
 	if res == nil {
-		return nil, fmt.Errorf("%s: no `case %s:` arm", fn.Name.Name, typ)
+		return nil, "", fmt.Errorf("%s: no `case %s:` arm", fn.Name.Name, typ)
 	}
-	return res, nil
+	return res, binder, nil
+}
+
+// hasTypeArm: does fn contain a type switch with an arm listing exactly the type typ?
+func hasTypeArm(c *Ctx, fn *ast.FuncDecl, typ string) bool {
+	if fn.Body == nil {
+		return false
+	}
+	found := false
+	ast.Inspect(fn.Body, func(n ast.Node) bool {
+		ts, ok := n.(*ast.TypeSwitchStmt)
+		if !ok {
+			return !found
+		}
+		for _, st := range ts.Body.List {
+			for _, e := range st.(*ast.CaseClause).List {
+				if tv, ok := c.Info.Types[e]; ok && typeName(tv.Type) == typ {
+					found = true
+				}
+			}
+		}
+		return !found
+	})
+	return found
+}
+
+// codecFuncs finds the three hand-written walkers over the wire types by what they are, whatever
+// they are called: each has a type switch with an arm for uint8 (encoder, size) or *uint8 (decoder)
+// and one for Fcall / *Fcall; the size function is the one whose result is an integer.
+func codecFuncs(c *Ctx) (enc, dec, size *ast.FuncDecl, err error) {
+	for _, f := range c.Files {
+		for _, d := range f.Decls {
+			fd, ok := d.(*ast.FuncDecl)
+			if !ok || fd.Body == nil {
+				continue
+			}
+			switch {
+			case !hasTypeArm(c, fd, "uint8") && hasTypeArm(c, fd, "*uint8") && hasTypeArm(c, fd, "*Fcall"):
+				if dec != nil {
+					return nil, nil, nil, fmt.Errorf("two decoder-like functions: %s, %s", dec.Name.Name, fd.Name.Name)
+				}
+				dec = fd
+			case hasTypeArm(c, fd, "uint8") && hasTypeArm(c, fd, "Fcall"):
+				isInt := false
+				if fd.Type.Results != nil && len(fd.Type.Results.List) == 1 {
+					if tv, ok := c.Info.Types[fd.Type.Results.List[0].Type]; ok {
+						if bt, ok := tv.Type.Underlying().(*types.Basic); ok && bt.Info()&types.IsInteger != 0 {
+							isInt = true
+						}
+					}
+				}
+				if isInt {
+					if size != nil {
+						return nil, nil, nil, fmt.Errorf("two size-like functions: %s, %s", size.Name.Name, fd.Name.Name)
+					}
+					size = fd
+				} else {
+					if enc != nil {
+						return nil, nil, nil, fmt.Errorf("two encoder-like functions: %s, %s", enc.Name.Name, fd.Name.Name)
+					}
+					enc = fd
+				}
+			}
+		}
+	}
+	if enc == nil || dec == nil || size == nil {
+		return nil, nil, nil, fmt.Errorf("encoder / decoder / size walker over the wire types not found (each is recognised by a type switch with arms for uint8 and Fcall)")
+	}
+	return enc, dec, size, nil
+}
+
+// messageFactory finds the function mapping an FcallType to a fresh Message (newMessage).
+func messageFactory(c *Ctx) *ast.FuncDecl {
+	for _, f := range c.Files {
+		for _, d := range f.Decls {
+			fd, ok := d.(*ast.FuncDecl)
+			if !ok || fd.Body == nil || fd.Recv != nil || fd.Type.Params == nil || len(fd.Type.Params.List) != 1 || fd.Type.Results == nil || len(fd.Type.Results.List) != 2 {
+				continue
+			}
+			pt, ok1 := c.Info.Types[fd.Type.Params.List[0].Type]
+			rt, ok2 := c.Info.Types[fd.Type.Results.List[0].Type]
+			if ok1 && ok2 && typeName(pt.Type) == "FcallType" && typeName(rt.Type) == "Message" {
+				return fd
+			}
+		}
+	}
+	return nil
 }
 
 // firstCallArgs finds the first call to callee (a function name or a method selector name)
 // inside the clause and returns the field names selected from `v` in its arguments
-// (v.Type, &v.Type -> "Type").
-func firstCallArgs(cc *ast.CaseClause, callee string) ([]string, error) {
+// (v.Type, &v.Type -> "Type"), v being the variable the type switch binds.
+func firstCallArgs(cc *ast.CaseClause, callee, binder string) ([]string, error) {
 	var out []string
 	done := false
 	for _, st := range cc.Body {
@@ -220,7 +318,7 @@ func firstCallArgs(cc *ast.CaseClause, callee string) ([]string, error) {
 				if !ok {
 					return true // not the shape we look for; keep searching
 				}
-				if id, ok := sel.X.(*ast.Ident); !ok || id.Name != "v" {
+				if id, ok := sel.X.(*ast.Ident); !ok || id.Name != binder {
 					return true
 				}
 				out = append(out, sel.Sel.Name)
@@ -270,9 +368,9 @@ func genWire(c *Ctx) (string, error) {
 	intTypes := map[string]bool{}
 
 	// newMessage switch
-	nm := c.FuncDecl("", "newMessage")
+	nm := messageFactory(c)
 	if nm == nil {
-		return "", fmt.Errorf("func newMessage not found")
+		return "", fmt.Errorf("no func(FcallType) (Message, error) found (newMessage)")
 	}
 	var sw *ast.SwitchStmt
 	for _, st := range nm.Body.List {
@@ -380,22 +478,27 @@ func genWire(c *Ctx) (string, error) {
 	}
 
 	// hand-written argument orders
-	type fnspec struct{ recv, name, callee, tag string }
-	for _, f := range []fnspec{{"encoder", "encode", "encode", "enc"}, {"decoder", "decode", "decode", "dec"}, {"", "size9p", "size9p", "size"}} {
-		fd := c.FuncDecl(f.recv, f.name)
-		if fd == nil {
-			return "", fmt.Errorf("func %s not found", f.name)
-		}
+	type fnspec struct {
+		fd          *ast.FuncDecl
+		name, callee, tag string
+	}
+	encF, decF, sizeF, err := codecFuncs(c)
+	if err != nil {
+		return "", err
+	}
+	specs := []fnspec{{encF, encF.Name.Name, encF.Name.Name, "enc"}, {decF, decF.Name.Name, decF.Name.Name, "dec"}, {sizeF, sizeF.Name.Name, sizeF.Name.Name, "size"}}
+	for _, f := range specs {
+		fd := f.fd
 		for _, ty := range []string{"Qid", "Fcall"} {
 			probe := ty
 			if f.tag == "dec" {
 				probe = "*" + ty
 			}
-			cc, err := caseBody(c, fd, probe)
+			cc, binder, err := caseBodyB(c, fd, probe)
 			if err != nil {
 				return "", err
 			}
-			args, err := firstCallArgs(cc, f.callee)
+			args, err := firstCallArgs(cc, f.callee, binder)
 			if err != nil {
 				return "", fmt.Errorf("%s, case %s: %v", f.name, probe, err)
 			}
@@ -413,8 +516,8 @@ func genWire(c *Ctx) (string, error) {
 		fmt.Fprintf(&b, "Definition gen_%s_int_arm : list string := %s.\n\n", f.tag, coqStrs(arm))
 	}
 	// the inner type switch of the `case Message:` arm: which Go types get the doubled stat size
-	for _, f := range []fnspec{{"encoder", "encode", "encode", "enc"}, {"decoder", "decode", "decode", "dec"}, {"", "size9p", "size9p", "size"}} {
-		fd := c.FuncDecl(f.recv, f.name)
+	for _, f := range specs {
+		fd := f.fd
 		cc, err := caseBody(c, fd, "Message")
 		if err != nil {
 			return "", err
